@@ -3,7 +3,7 @@
 //! Haystack Timezone configured to work with the full IANA database
 //! provided by chrono_tz.
 
-use chrono::{DateTime as StdDateTime, FixedOffset, TimeZone, Utc};
+use chrono::{DateTime as StdDateTime, FixedOffset, Utc};
 
 use chrono_tz::{OffsetName, Tz, UTC};
 
@@ -13,13 +13,9 @@ use crate::timezone::fixed_timezone;
 pub type DateTimeType = StdDateTime<Tz>;
 
 pub fn make_date_time(date: StdDateTime<FixedOffset>) -> Result<DateTimeType, String> {
-    use chrono::LocalResult;
     if let Ok(tz) = find_timezone(&fixed_timezone(&date.offset().to_string())) {
-        Ok(match tz.from_local_datetime(&date.naive_local()) {
-            LocalResult::Single(val) => val,
-            LocalResult::Ambiguous(v1, _) => v1,
-            LocalResult::None => return Err(format!("Can't create datetime with timezone {tz}")),
-        })
+        // Keep the instant, the fixed offset only selects the zone it is shown in
+        Ok(date.with_timezone(&tz))
     } else {
         Err("Invalid timezone".into())
     }
